@@ -16,7 +16,7 @@ the restart and what every item holds afterwards — rendered one entry per line
 Lanes registered while the agent runs (the `late` rig: a harness-implemented `Agent` that calls
 `AgentContext::add_lane` on a scripted step and speaks the lane protocol itself):
   do addlane <name> <value|map> <transient 0|1>        ;; ok
-  added <name>                                         ;; ok | err        (`add_lane` returned the lane's channels)
+  added <name> <ok|err>                                ;; ok              (`add_lane` returned the lane's channels / failed)
   init <name>                                          ;; val=<hex> | map=<entries>   (what the lane held when its
                                                           initialisation was complete: `InitComplete` received and
                                                           answered, or — transient — at once)
@@ -123,7 +123,7 @@ def LSt.step (s : LSt) (line : String) : LSt × String :=
     | some op => ({ s with store := applyStore s.store op }, "ok")
     | none => (s, "bad-op")
   | ["start"] => (s, s.allStates)
-  | ["added", _] => (s, "ok")
+  | ["added", _, _] => (s, "ok")
   | ["init", name] =>
     match s.item? name with
     | some it => (s, s.taggedState it)
@@ -221,7 +221,9 @@ def Mon.step (m : Mon) (line : String) (out : String) : Mon × Option String :=
   | ["start"] =>
     if out != model.2 then (m, some (if m.restarted then "state-at-on-start-differs-from-store" else "initial-state-not-default"))
     else (m, none)
-  | ["added", _] => (m, if out == "ok" then none else some "lane-registration-failed")
+  | ["added", _, how] =>
+    -- registration can only fail when the runtime has gone (a store failure ended the write task)
+    (m, if how == "ok" || m.failed then none else some "lane-registration-failed")
   | ["init", name] =>
     match m.st.item? name with
     | some it =>
